@@ -496,6 +496,10 @@ func rReplayTest(t *testing.T, prop string) {
 		}
 		var c rCase
 		key, err := vLoadReplay(f, &c)
+		if err == nil && c.Engine == "RD" {
+			dReplay(f, key, prop) // dispatcher unit (er_disp_test.go)
+			continue
+		}
 		if err != nil || c.Engine != "R" || len(c.Script) == 0 {
 			continue // not an engine-R case
 		}
